@@ -200,6 +200,21 @@ func init() {
 		a, b := u.eval(st, x.Args[0]), u.eval(st, x.Args[1])
 		return &Val{T: types.Typ[types.Bool], S: app("str.prefixof", b.S, a.S)}
 	}
+	models["math.IsNaN"] = func(u *Unit, st *State, x *ast.CallExpr, _ *Val, fn *types.Func) *Val {
+		return &Val{T: types.Typ[types.Bool], S: app("fp.isNaN", u.eval(st, x.Args[0]).S)}
+	}
+	models["math.IsInf"] = func(u *Unit, st *State, x *ast.CallExpr, _ *Val, fn *types.Func) *Val {
+		f, sign := u.eval(st, x.Args[0]), u.eval(st, x.Args[1])
+		inf := app("fp.isInfinite", f.S)
+		return &Val{T: types.Typ[types.Bool], S: tAnd(inf, tOr(tEq(sign.S, "0"), tAnd(app(">", sign.S, "0"), app("fp.isPositive", f.S)), tAnd(app("<", sign.S, "0"), app("fp.isNegative", f.S))))}
+	}
+	models["strings.Index"] = func(u *Unit, st *State, x *ast.CallExpr, _ *Val, fn *types.Func) *Val {
+		a, b := u.eval(st, x.Args[0]), u.eval(st, x.Args[1])
+		r := app("str.indexof", a.S, b.S, "0")
+		// bounds of the result stated explicitly (they follow from str.indexof; solvers use them without unfolding it)
+		st.assumeFact(tAnd(app(">=", r, "(- 1)"), app("<=", app("+", r, app("str.len", b.S)), app("+", app("str.len", a.S), tIte(app("<", r, "0"), app("+", app("str.len", b.S), "1"), "0")))))
+		return &Val{T: types.Typ[types.Int], S: r}
+	}
 	models["strings.HasSuffix"] = func(u *Unit, st *State, x *ast.CallExpr, _ *Val, fn *types.Func) *Val {
 		a, b := u.eval(st, x.Args[0]), u.eval(st, x.Args[1])
 		return &Val{T: types.Typ[types.Bool], S: app("str.suffixof", b.S, a.S)}
@@ -526,6 +541,74 @@ func init() {
 		}
 		st.assumeFact(tEq(app(u.wrapsFn(), r), wrapped))
 		return &Val{T: u.typeOf(x), S: r}
+	}
+
+	// ---- JSON decoding into a Go value: whatever the bytes are, the decoder leaves SOME well-typed value in the target
+	// (and returns nil or an error). Modelled as: every field of the target struct (or the target local itself) gets
+	// an arbitrary value of its type; decoded pointers are nil or freshly allocated objects, whose own contents are
+	// arbitrary (nothing is known about memory above the old allocation watermark). Nothing else changes. This covers
+	// every input byte string.
+	unmarshal := func(argIdx int) func(u *Unit, st *State, x *ast.CallExpr, recv *Val, fn *types.Func) *Val {
+		return func(u *Unit, st *State, x *ast.CallExpr, recv *Val, fn *types.Func) *Val {
+			u.trusted["model: JSON decoding (Unmarshal/Decode) leaves an arbitrary well-typed value in its target and returns nil or an error; it does not panic"] = true
+			for i, a := range x.Args {
+				if i != argIdx {
+					u.eval(st, a)
+				}
+			}
+			var target *Val
+			if argIdx < len(x.Args) {
+				target = u.eval(st, x.Args[argIdx])
+			}
+			wmOld := st.wm
+			st.wm = u.bumpWM(st)
+			decoded := func(t types.Type, hint string) *Val {
+				nv := u.freshVal(st, t, hint)
+				switch kindOf(t) {
+				case kRef:
+					if !isIface(t) {
+						// a decoded pointer / map is nil or an object the decoder has just allocated
+						st.assumeFact(tOr(tEq(nv.S, "0"), tAnd(app(">", nv.S, wmOld), app("<=", nv.S, st.wm))))
+					}
+				case kSlice:
+					if et := elemType(t); et != nil && kindOf(et) == kRef && !isIface(et) && nv.Arr != "" {
+						bvCounter++
+						q := fmt.Sprintf("dj!%d", bvCounter)
+						st.assumeFact(fmt.Sprintf("(forall ((%s Int)) (! (or (= (select %s %s) 0) (and (> (select %s %s) %s) (<= (select %s %s) %s))) :pattern ((select %s %s))))", q, nv.Arr, q, nv.Arr, q, wmOld, nv.Arr, q, st.wm, nv.Arr, q))
+					}
+				}
+				return nv
+			}
+			if target != nil && target.S != "" {
+				if inner, ok := u.ptrs[target.S]; ok {
+					// pointer to a local that is not a struct (map, slice, interface, scalar): the local gets an arbitrary value
+					u.assign(st, inner, decoded(u.typeOf(inner), "decoded"))
+				} else if sd := structOf(target.T); sd != nil {
+					if _, isPtr := types.Unalias(target.T).Underlying().(*types.Pointer); isPtr {
+						for i := 0; i < sd.NumFields(); i++ {
+							f := sd.Field(i)
+							if kindOf(f.Type()) == kUnit {
+								continue
+							}
+							u.storeField(st, target.S, target.T, f.Name(), decoded(f.Type(), "decoded."+f.Name()))
+						}
+					}
+				} else {
+					u.note("JSON decoding into " + types.TypeString(target.T, nil) + ": target not modelled, heap havocked")
+					u.havocAllHeap(st, "JSON decoding")
+				}
+			}
+			return u.freshVal(st, u.typeOf(x), "decode.err")
+		}
+	}
+	for _, n := range []string{"(github.com/json-iterator/go.API).Unmarshal", "encoding/json.Unmarshal", "gopkg.in/yaml.v3.Unmarshal"} {
+		models[n] = unmarshal(1)
+	}
+	for _, n := range []string{"(github.com/json-iterator/go.API).UnmarshalFromString"} {
+		models[n] = unmarshal(1)
+	}
+	for _, n := range []string{"(*encoding/json.Decoder).Decode", "(*github.com/json-iterator/go.Decoder).Decode"} {
+		models[n] = unmarshal(0)
 	}
 
 	// fmt.Sprintf with a constant format: literal pieces are exact; a plain %s (or %v) of a string argument is the
